@@ -1,7 +1,13 @@
 #!/bin/bash
-# Re-run stored behaviour-preserving changes (benign_seeded/) against the current checks, ALL 20 checks each
-# (lab: $MUTLAB, default /tmp/mutlab).   tools/rebenign_all.sh [ids...]
+# Re-run stored behaviour-preserving changes (benign_seeded/) against the current checks (lab: $MUTLAB).
+#   tools/rebenign_all.sh [--all-checks] [ids...]
+# Default per entry: the check of its own property plus the checks that gained stages or readers after the
+# entry was first run with ALL 20 checks (C01 C06 C09 C10 C12 C14 C15 C19); --all-checks runs all 20 again.
 export MUTLAB="${MUTLAB:-/tmp/mutlab}"
+allc=0; if [ "${1:-}" = "--all-checks" ]; then allc=1; shift; fi
 python3 /verif/tools/mutlab.py setup >/dev/null
 if [ $# -gt 0 ]; then list="$*"; else list=$(ls /verif/benign_seeded); fi
-for sid in $list; do python3 /verif/tools/benigncheck.py /verif/benign_seeded "$sid" "" all 2>&1 | cut -c1-300; done
+for sid in $list; do
+  if [ $allc = 1 ]; then checks="all"; else checks=$(echo "${sid:0:3} C01 C06 C09 C10 C12 C14 C15 C19" | tr ' ' '\n' | awk '!s[$0]++' | tr '\n' ' '); fi
+  python3 /verif/tools/benigncheck.py /verif/benign_seeded "$sid" "" $checks 2>&1 | cut -c1-300
+done
